@@ -8,6 +8,7 @@ pub mod c04;
 pub mod c05;
 pub mod c07;
 pub mod c08;
+pub mod c11;
 pub mod c12;
 pub mod c13;
 pub mod c15;
@@ -37,6 +38,7 @@ pub fn all() -> Vec<Prop> {
         Prop { info: &c05::INFO, run: c05::run, replay: c05::replay },
         Prop { info: &c07::INFO, run: c07::run, replay: c07::replay },
         Prop { info: &c08::INFO, run: c08::run, replay: c08::replay },
+        Prop { info: &c11::INFO, run: c11::run, replay: c11::replay },
         Prop { info: &c12::INFO, run: c12::run, replay: c12::replay },
         Prop { info: &c13::INFO, run: c13::run, replay: c13::replay },
         Prop { info: &c13::INFO14, run: c13::run14, replay: c13::replay14 },
